@@ -21,7 +21,9 @@ def scenario(rng, i):
     renamed_before = set()
     ever = set(gen.all_files(cur)) | set(gen.all_dirs(cur))          # a new name never re-uses a path that was recorded before
     for rnd_no in range(rng.choice([1, 1, 2, 3])):
-        files = [f for f in gen.all_files(cur) if f not in renamed_before]
+        # a file renamed in an earlier round may be renamed again (one step per generation): after a -> b -> c the tree
+        # must be accepted just the same
+        files = [f for f in gen.all_files(cur) if f not in renamed_before or (i % 3 != 0)]
         if not files:
             break
         k = min(len(files), rng.choice([1, 1, 2, 3, 4]))
@@ -82,7 +84,7 @@ def scenario(rng, i):
     return {"tree": tree, "steps": steps, "rounds": rounds}
 
 
-RULE = ("trees with pairwise distinct non-empty contents; 1-3 rounds of 1-4 simultaneous file renames / moves between directories of one history (also into new folders, also keeping "
+RULE = ("trees with pairwise distinct non-empty contents; 1-3 rounds (a file may be renamed again in a later round) of 1-4 simultaneous file renames / moves between directories of one history (also into new folders, also keeping "
         "the base name) plus unrelated new files; each round is followed by create -dr (same or other formats) then verify / diff / create, optionally by altering a renamed "
         "file and verify -- or by verify / diff / create WITHOUT -dr; oracle: exit codes, <previousPath> of every renamed file, nothing reported missing, old+new paths "
         "reported without -dr. Non-trivial: at least one round with -dr and >= 2 renames or a second round.")
